@@ -9,7 +9,16 @@ RULE = ("unlock: L1 histories (sifapp.Setup, real clp message servers, one cache
         "ctx.WithBlockHeight) of 160 messages each: unlock / cancel-unlock / remove-by-basis-points / remove-units / add by "
         "4 providers in 2 pools, heights advanced by 0..60 blocks or exactly onto L-1, L, L+C-1, L+C after one of the provider's "
         "requests, lock and cancel periods drawn from {0,1,3,50,10^6} (+ rare 2^62, 2^63-1, 2^63, 2^64-1 to exercise the int64 "
-        "wrap of the model) and changed by the admin (UpdateRewardsParams) in 8% of the steps; after every message the result "
+        "wrap of the model) and changed by the admin (UpdateRewardsParams) in 8% of the steps; per history a configuration is "
+        "drawn: raw external:native ratio of each pool in {1:1, 100:1}, which pools are margin enabled (x/margin Params.Pools), clp "
+        "EnableRemovalQueue on/off, RemovalQueueThreshold in {0, 0.1, 0.95, 1}, margin liabilities written into the margin pools "
+        "(none / external 10% / external 5% + native 2%); the clp BeginBlocker/EndBlocker run once per new height; the outcome of the "
+        "margin-health stage of every removal (pass / queue / block / panic) is computed on the pre-state with the implementation's own "
+        "functions and given to the model, which must reproduce ErrQueued / ErrRemovalsBlockedByHealth as refusals that change nothing; "
+        "the units an add mints are taken from CalculatePoolUnits on the pre-state, not from before/after; after EVERY message and hook "
+        "the records of all 5 providers of both pools are compared with their records before: any fall of anybody's units (gross of the "
+        "computed mint), whatever caused it, is judged by c15.remove / c15.consume / c15.once like a removal, and any change of a record "
+        "other than the signer's is shown to the model (obs); after every message the result "
         "class and the provider's stored record (units, unlock list) are compared with the Lean model, and 5 chk predicates are "
         "judged on the implementation's own before/after records; non-trivial = distinct accepted message")
 TRUSTED_BASE = [
@@ -34,7 +43,14 @@ ASSUMPTIONS = [
 UNPROVED = [
     "No theorem covers the payout part of the removal handlers (whether a removal that passes the unlock check later fails for "
     "pool depth, margin health or the removal queue); such a failure only makes the removal refused, which is the safe direction.",
-    "ProcessRemovalQueue / queued removals (O5: never persisted) are outside the model; the harness runs with the queue disabled.",
+    "ProcessRemovalQueue is not modelled: on this tree it is unreachable (QueueRemoval is only called right before `return nil, "
+    "types.ErrQueued`, an error, so the entry is rolled back — O5; genesis does not carry the queue). The model states that (a queued "
+    "removal is a refusal that changes nothing: removal_queued_is_refused) and the harness, with the queue enabled in half of the "
+    "histories, would see any unit change it caused (any_decrease_requires_matured is the theorem; c15.remove on every decrease the test).",
+    "The margin-health outcome (pass/queue/block/panic) is an environment value computed by the harness with the implementation's own "
+    "CalculateWithdrawal*, ExtractDebt, CalculatePoolHealth, GetRemovalQueueThreshold, IsPoolEnabled, IsRemovalQueueEnabled.",
+    "Epoch re-investment, LPPD and margin hooks are not run by this family (only the clp Begin/EndBlocker, which do not touch LP units); "
+    "their effect on provider units is covered only in so far as another family runs them (C01/C02 amm family).",
     "No separate abstract-ledger state machine is defined: the refinement is stated per message (code decision with int64 wrap, "
     "aliasing and zero records = the spec's matured/expired/usable over mathematical integers) and per history (ledger invariants).",
 ]
